@@ -925,8 +925,31 @@ impl Machine {
                 if va.ty() != vb.ty() {
                     return Err(Fault::Code(BErr::TypeMismatch));
                 }
-                self.set_lval(a, &vb)?;
-                self.set_lval(b, &va)?;
+                // the two variables are the ones the statement names when it starts: subscripts
+                // are values by now, whatever the exchange does to the variables they mention
+                let mut at: Vec<Option<_>> = vec![];
+                for lv in [a, b] {
+                    at.push(match lv {
+                        Lval::Var(_) => None,
+                        Lval::Elem(n, subs) => {
+                            let mut sv = vec![];
+                            for x in subs {
+                                sv.push(self.ev(x)?);
+                            }
+                            Some(self.subs(n, &sv, true)?)
+                        }
+                    });
+                }
+                for (k, (lv, v)) in [(a, &vb), (b, &va)].into_iter().enumerate() {
+                    match (lv, at[k].take()) {
+                        (Lval::Elem(n, _), Some(idx)) => {
+                            let t = self.ty_of(n);
+                            let cv = stored(&convert(t, v)?);
+                            self.arrays.get_mut(&n.text()).unwrap().elems.insert(idx, cv);
+                        }
+                        (lv, _) => self.set_lval(lv, v)?,
+                    }
+                }
                 Ok(Ctl::Next)
             }
             MidSet { lv, pos: p, len, e } => {
